@@ -19,7 +19,8 @@ EXTENDS EigSolve
 
 TdvpIsland(c) ==
     LET G == FillCores(IF c.cplx THEN "complex" ELSE "real", c.seed, OpShape(c.dims, c.rg))
-    IN  [H |-> HermCores(c.kind, G, c.dims), x0 |-> FullRankCores(c.dims, c.r0, c.seed + 3, c.cplx)]
+    \* rg = 2: real-valued initial states also for complex Hamiltonians (mixed dtypes)
+    IN  [H |-> HermCores(c.kind, G, c.dims), x0 |-> FullRankCores(c.dims, c.r0, c.seed + 3, c.cplx /\ c.rg = 1)]
 
 \* Weakly entangled states of maximal ranks under a non-entangling Hamiltonian: the Schmidt values stay at
 \* 10^-7 relative (between a truncation threshold 10^-12 and its square root), so a threshold applied to anything
@@ -39,7 +40,9 @@ WeakCores(dims, seed) ==
 WeakConfigs == {[weak |-> TRUE, dims |-> [k \in 1..d |-> 2], seed |-> seed, e |-> 3, steps |-> 2] : d \in 2..4, seed \in {1, 2}}
 WeakIsland(c) == [H |-> LocalSumFrom(Len(c.dims), c.seed, 1), x0 |-> WeakCores(c.dims, c.seed)]
 
-TdvpDims == IF Level = 1 THEN {<<2>>, <<3>>, <<2, 2>>, <<2, 2, 2>>, <<3, 2>>} ELSE {<<2>>, <<2, 2>>, <<2, 2, 2>>, <<3, 2>>, <<2, 3, 2>>, <<2, 2, 2, 2>>}
+\* size-1 modes give rank-1 bonds also at maximal ranks (1x1 bond matrices in the one-site scheme)
+TdvpDims == IF Level = 1 THEN {<<2>>, <<3>>, <<2, 2>>, <<2, 2, 2>>, <<3, 2>>, <<1, 2, 2>>, <<2, 2, 1>>}
+            ELSE {<<2>>, <<2, 2>>, <<2, 2, 2>>, <<3, 2>>, <<2, 3, 2>>, <<2, 2, 2, 2>>, <<1, 2, 2>>, <<2, 3, 1>>, <<2, 1, 2>>, <<1, 3, 2, 1>>}
 TdvpConfigs ==
     UNION {{[dims |-> dims, rg |-> rg, kind |-> kd[1], cplx |-> cplx, seed |-> seed, r0 |-> r0, e |-> kd[2], steps |-> n] :
               rg \in {1, 2}, kd \in {<<"ind", 6>>, <<"pd", 9>>}, cplx \in BOOLEAN, seed \in {1}, r0 \in RankProfiles(dims),
